@@ -74,6 +74,8 @@ def api_lambdas():
     out["where/asa"] = pt.where(p, 1.5, y)
     out["where/aas"] = pt.where(q, y, 0.0)
     out["where/ass"] = pt.where(p, 1.0, 2.0)
+    # conditions that are not Boolean (any dtype is a legal truth value)
+    out["where/fcond"], out["where/icond"], out["where/ccond"] = pt.where(x, y, 2.0), pt.where(m, x, y), pt.where(z, y, 0.5)
     for fn in ["sin", "cos", "tan", "arcsin", "arccos", "arctan", "sinh", "cosh", "tanh", "exp", "log", "log10", "sqrt",
                "abs", "isnan"]:
         out[f"{fn}/a"] = getattr(pt, fn)(x)
@@ -100,6 +102,10 @@ def api_lambdas():
     out["npscalar/f64*i64"], out["npscalar/i64+i32"] = x * np.int64(3), k64 + np.int32(5)
     out["npscalar/i32-i64"], out["npscalar/f64/i32"] = np.int32(7) - k64, x / np.int32(2)
     out["npscalar/less"], out["npscalar/pow"] = pt.less(x, np.float32(0.5)), x ** np.int64(2)
+    # extreme NumPy-typed constants (their negation overflows in their own type)
+    out["npscalar/i64+i8min"], out["npscalar/f64+i16min"] = k64 + np.int8(-128), x + np.int16(-32768)
+    out["npscalar/i64-i8min"], out["npscalar/i64*i8min"] = k64 - np.int8(-128), k64 * np.int8(-128)
+    out["npscalar/i32min+i64"] = np.int32(-2147483648) + k64
     out["astype/i2f"] = m.astype(F64)
     out["astype/f2c"] = x.astype(C128)
     out["zeros_like"] = pt.zeros_like(x)
